@@ -316,6 +316,11 @@ def extra_entries():
         cost=2)
     add("ExpectedModelOutputChange(dict)", "ExpectedModelOutputChange",
         {"integration_dict": {"method": "assume_linear"}}, model="reg_prob", cost=2)
+    add("KLDivergenceMaximization(dicts)", "KLDivergenceMaximization",
+        {"integration_dict_target_val": {"method": "assume_linear"},
+         "integration_dict_cross_entropy": {"method": "assume_linear"}}, model="reg_prob", cost=2)
+    add("KLDivergenceMaximization(empty dicts)", "KLDivergenceMaximization",
+        {"integration_dict_target_val": {}, "integration_dict_cross_entropy": {}}, model="reg_prob", cost=3)
     add("GreedySamplingTarget(dicts)", "GreedySamplingTarget",
         {"x_metric": "euclidean", "x_metric_dict": {"squared": True}, "y_metric": "euclidean",
          "y_metric_dict": {"squared": True}},
